@@ -189,6 +189,118 @@ func genOps(g *bufGen, n int) string {
 	return strings.Join(ops, ",")
 }
 
+// pairSweepC04 constructs, for every compatible pair of features, ops that have both.
+func pairSweepC04(g *bufGen) {
+	r := g.R
+	ps := &pairSweep{
+		feats: []string{"sum", "verify", "hist", "histc", "msg-empty", "msg-short", "msg-mult16", "msg-long", "all-ff",
+			"r-max", "r-zero", "s-max", "write0", "sum-prefix", "verify-wronglen", "write-after-final", "multi-final", "nil", "session", "fresh"},
+		exclusive: [][]string{{"sum", "verify", "hist", "histc"}, {"msg-empty", "msg-short", "msg-mult16"}, {"msg-empty", "msg-short", "msg-long"}, {"r-max", "r-zero"}},
+		forbidden: map[string][]string{
+			"msg-empty": {"all-ff"},
+			"nil":       {"msg-short", "msg-mult16", "msg-long", "all-ff"},
+			"sum":       {"write0", "sum-prefix", "verify-wronglen", "write-after-final", "multi-final"},
+			"verify":    {"write0", "sum-prefix", "verify-wronglen", "write-after-final", "multi-final"},
+		},
+	}
+	ps.run(2, func(k string) { g.Stat(k) }, func(fs featSet) bool {
+		key := r.Bytes(32)
+		if fs.has("r-max") {
+			copy(key, bytes16(0xff))
+		}
+		if fs.has("r-zero") {
+			copy(key, bytes16(0))
+		}
+		if fs.has("s-max") {
+			copy(key[16:], bytes16(0xff))
+		}
+		L := r.Range(17, 100)
+		switch {
+		case fs.has("msg-empty") || fs.has("nil"):
+			L = 0
+		case fs.has("msg-short"):
+			L = r.Range(1, 15)
+		case fs.has("msg-long") && fs.has("msg-mult16"):
+			L = 256 + 16*r.Intn(40)
+		case fs.has("msg-long"):
+			L = 257 + r.Intn(800)
+		case fs.has("msg-mult16"):
+			L = 16 * r.Range(1, 15)
+		}
+		msg := r.Bytes(L)
+		if fs.has("all-ff") {
+			for i := range msg {
+				msg[i] = 0xff
+			}
+		}
+		nils := ""
+		if fs.has("nil") {
+			nils = " nils=1"
+		}
+		var line string
+		histOnly := fs.has("write0") || fs.has("sum-prefix") || fs.has("verify-wronglen") || fs.has("write-after-final") || fs.has("multi-final")
+		switch {
+		case fs.has("sum") || (!histOnly && !fs.has("hist") && !fs.has("histc") && !fs.has("verify") && r.Bool()):
+			line = fmt.Sprintf("sum key=%s msg=%s%s", hx.Hex(key), hx.Hex(msg), nils)
+		case fs.has("verify"):
+			line = fmt.Sprintf("verify key=%s msg=%s tag=%s%s", hx.Hex(key), hx.Hex(msg), hx.Hex(realTag(key, msg)), nils)
+		default:
+			cmd := "hist"
+			if fs.has("histc") || (!fs.has("hist") && r.Bool()) {
+				cmd = "histc"
+			}
+			var ops []string
+			if o := genOps(g, len(msg)); o != "" {
+				ops = strings.Split(o, ",")
+			}
+			if fs.has("write0") {
+				ops = append(ops, "w:0")
+			}
+			tag := realTag(key, msg)
+			if fs.has("sum-prefix") {
+				ops = append(ops, "sb:"+hx.Hex(r.Bytes(r.Range(1, 20))))
+			}
+			if fs.has("verify-wronglen") {
+				ops = append(ops, "v:"+hx.Hex(tag[:r.Intn(16)]))
+			}
+			if fs.has("multi-final") {
+				ops = append(ops, "s", "v:"+hx.Hex(tag), "s")
+			}
+			ops = append(ops, "s")
+			if fs.has("write-after-final") {
+				ops = append(ops, "w:0", "s", "v:"+hx.Hex(tag)) // with histc the MAC is used again after the recovered panic
+			}
+			line = fmt.Sprintf("%s key=%s msg=%s ops=%s%s", cmd, hx.Hex(key), hx.Hex(msg), strings.Join(ops, ","), nils)
+		}
+		if fs.has("session") || fs.has("fresh") {
+			second := line
+			if fs.has("fresh") {
+				second += " fresh=1"
+			}
+			g.Gen.Emit("%s", sessLine([]string{line, second, fmt.Sprintf("sum key=%s msg=%s", hx.Hex(r.Bytes(32)), hx.Hex(msg))}))
+		} else {
+			g.Gen.Emit("%s", line)
+		}
+		return true
+	})
+	// recovered-panic histories on one MAC: Write after Sum/Verify panics, the object stays usable
+	for i := 0; i < 60; i++ {
+		key, msg := genKey(g), r.Bytes(r.Intn(80))
+		a := r.Intn(len(msg) + 1)
+		tag := realTag(key, msg[:a])
+		g.Gen.Emit("histc key=%s msg=%s ops=w:%d,s,w:%d,v:%s,w:0,sb:%s,s", hx.Hex(key), hx.Hex(msg), a, len(msg)-a, hx.Hex(tag), hx.Hex(r.Bytes(3)))
+		g.Stat("histc.reuse-after-recovered-panic")
+	}
+}
+
+func bytes16(b byte) []byte {
+	out := make([]byte, 16)
+	for i := range out {
+		out[i] = b
+	}
+	return out
+}
+
 func realTag(key, msg []byte) []byte {
 	var k [32]byte
 	copy(k[:], key)
@@ -232,8 +344,10 @@ func gen(gg *hx.Gen) {
 			i++
 		}
 	}()
-	n := g.Count(14000, 150000)
+	n := g.Count(11000, 150000)
 	r := g.R
+	g.Emit("api")
+	pairSweepC04(g)
 	for i := 0; i < n; i++ {
 		key := genKey(g)
 		L := genLen(g)
@@ -344,9 +458,51 @@ func exec(line string) string {
 
 func execOne(o hx.Op, ar *arena) string {
 	ar.begin()
+	if o.Cmd == "api" {
+		var k [32]byte
+		return fmt.Sprintf("TagSize=%d Size=%d", poly1305.TagSize, poly1305.New(&k).Size())
+	}
 	key := ar.K32("key", o.Hex("key"))
 	msg := ar.In("msg", o.Hex("msg"))
+	if o.Str("nils") == "1" && len(msg) == 0 {
+		msg = nil // nil instead of an empty non-nil slice
+	}
 	switch o.Cmd {
+	case "histc": // the caller recovers from every panic and keeps using the same MAC
+		var outs []string
+		m := poly1305.New(key)
+		for step, t := range o.List("ops") {
+			kind, arg, _ := strings.Cut(t, ":")
+			outs = append(outs, hx.Catch(func() string {
+				switch kind {
+				case "w":
+					var n int
+					fmt.Sscanf(arg, "%d", &n)
+					chunk := msg[:n]
+					msg = msg[n:] // consumed even if the Write panics (the model splits msg the same way)
+					k, err := m.Write(chunk)
+					if err != nil {
+						return "err"
+					}
+					return fmt.Sprintf("w%d", k)
+				case "s":
+					return hx.Hex(m.Sum(nil))
+				case "sb":
+					pre := ar.In(fmt.Sprintf("prefix%d", step), hx.UnHex(arg))
+					return hx.Hex(m.Sum(pre[:len(pre):len(pre)]))
+				case "v":
+					if m.Verify(ar.In(fmt.Sprintf("vtag%d", step), hx.UnHex(arg))) {
+						return "v1"
+					}
+					return "v0"
+				}
+				return "bad-op"
+			}))
+		}
+		if len(outs) == 0 {
+			return "-" + ar.mutated()
+		}
+		return strings.Join(outs, "|") + ar.mutated()
 	case "sum":
 		out := ar.G16("out") // out-parameter pre-filled with non-zero garbage
 		poly1305.Sum(out, msg, key)
